@@ -27,6 +27,29 @@ def norm_msg(msg):
     return m[:110]
 
 
+def norm_c_msg(msg):
+    """gcc diagnostic -> mechanism text: module-specific mangled names reduced to their kind, fixed helper names kept"""
+    m = re.sub(r'; did you mean .*$', '', msg.strip())
+    m = re.sub(r'__pyx_(mdef|pw|pf|pyx|n_s|n_u|n_b|kp_s|kp_u|kp_b|k|v|t|r|L\d+|int|float|tuple|codeobj|gb|f|vtab\w*|obj|type|ptype|scope\w*)_\w+',
+               r'__pyx_\1_*', m)
+    m = re.sub(r'\d+', 'N', m)
+    return m[:120]
+
+
+def crash_key(kind, exc, where, msg, phase):
+    """mechanism key of an internal failure: exception type + innermost compiler function, except where the
+    innermost frame is incidental: recursion depth (keyed by pipeline phase) and the two propagation families
+    'an expression whose analysis failed (error_type / None type) is processed further'"""
+    if exc == 'RecursionError':
+        ph = 'Parsing' if (where or '').startswith(('Parsing.', 'Scanning.', 'Scanners.')) else (phase or 'compile')
+        return 'crash:%s:RecursionError:phase=%s' % (kind, re.sub(r'\W.*', '', str(ph)))
+    if exc == 'AttributeError' and "'ErrorType' object has no attribute" in msg:
+        return 'crash:%s:error_type-propagated:AttributeError' % kind
+    if exc == 'AttributeError' and re.search(r"'NoneType' object has no attribute '(is_\w+|rank|base_type|declaration_code)'", msg):
+        return 'crash:%s:none-type-propagated:AttributeError' % kind
+    return 'crash:%s:%s@%s' % (kind, exc, where)
+
+
 def load_deliberate():
     data = core.read_json(os.path.join(core.VERIF, 'deliberate_rejects.json'))
     return [(e['id'], re.compile(e['pattern']), e) for e in data['entries']]
@@ -130,18 +153,24 @@ def classify(it, r, deliberate):
         return 'worker-died', [('crash:process-died', 'the compiler process died: %s' % txt[-300:])]
     if mon.get('cpu_timeout'):
         return 'hang', [('hang:cpu-budget', 'compilation used more than the CPU budget (%s s process CPU time)' % mon.get('cpu_s'))]
+    cpy = str(it.get('cpython') or '')
+    cpython_resource = cpy.startswith(('invalid:RecursionError', 'invalid:MemoryError', 'cpython-crashed'))
     esc = mon.get('escaped')
     if esc:
-        typ = esc['type']
-        if typ in ('CompileError', 'Cython.Compiler.Errors.CompileError', 'PyrexError'):
+        typ = esc['type'].split('.')[-1]
+        if typ in ('CompileError', 'PyrexError'):
             pass
+        elif typ in ('RecursionError', 'MemoryError') and cpython_resource:
+            return 'resource-limit-like-cpython', []
         else:
-            return 'python-traceback', [('crash:traceback:%s@%s' % (typ.split('.')[-1], esc.get('where')),
+            return 'python-traceback', [(crash_key('traceback', typ, esc.get('where'), esc.get('last_line') or '', 'compile'),
                                          'exception escaped Cython.Compiler.Main.compile: %s' % esc.get('last_line'))]
     crashes = [e for e in errs if e.get('crash')]
     if crashes:
         c = crashes[0]['crash']
-        return 'compiler-crash', [('crash:compiler-crash:%s@%s' % (c.get('cause'), c.get('where')),
+        if c.get('cause') in ('RecursionError', 'MemoryError') and cpython_resource:
+            return 'resource-limit-like-cpython', []
+        return 'compiler-crash', [(crash_key('compiler-crash', c.get('cause'), c.get('where'), c.get('cause_msg') or '', c.get('context')),
                                    'Compiler crash in %s: %s: %s' % (c.get('context'), c.get('cause'), c.get('cause_msg')))]
     for e in errs:
         if e['cls'] in ('InternalError', 'AssertionError', 'MONITOR-ERROR') or 'Internal compiler error' in e['msg']:
@@ -297,7 +326,7 @@ def main(ck):
                 c_rejected += 1
                 first = [l for l in (rr.err or '').splitlines() if 'error' in l][:1]
                 msg = re.sub(r'^[^:]*:\d+:\d+: ', '', first[0]) if first else (rr.err or '')[-200:]
-                ck.discrepancy('c-rejected:%s' % norm_msg(re.sub(r'__pyx_\w+', 'ID', msg)),
+                ck.discrepancy('c-rejected:%s' % norm_c_msg(msg),
                                'gcc -fsyntax-only rejects the C generated for a %s input (%s): %s' % (it['family'], it['cat'], msg[:200]),
                                {'family': it['family'], 'category': it['cat'],
                                 'input_text': open(it['path'], 'rb').read()[:20000].decode('utf-8', 'replace'),
